@@ -329,7 +329,7 @@ theorem write_last (hcl : TextBlind w.ctl E) (hwf : WfChunkWith w.tbl fs = true)
     Unclean (S.write w c).2 ∨
     ∃ pwF rwF, PRunsM w.env inpW false pw0 mw0 pwF rwF ∧
       ((∃ e, rwF = .error e ∧ (S.write w c).2 = .error e) ∨
-       (∃ c' d' mid, rwF = .ok c' ∧ (S.write w c).2 = .ok () ∧
+       (∃ c' d' mid, rwF = .ok c' ∧ (S.write w c).2 = .ok () ∧ d' = 0 ∧
           inpW.drop c' = mid ++ (S.write w c).1.pending ∧ mid.length = d' ∧ c' + d' ≤ inpW.length ∧
           PRelM w.tbl fs inpW d' d' 0 (S.write w c).1.parser ((S.write w c).1.parser.machine false) pwF (pwF.machine false) ∧
           DK w.ctl E [] inpW (c' + d') d' (S.write w c).1.disp pwF.x.sink ∧ (S.write w c).1.disp.rcs = 0 ∧
@@ -369,7 +369,7 @@ theorem write_last (hcl : TextBlind w.ctl E) (hwf : WfChunkWith w.tbl fs = true)
     cases rw' with
     | error e' => exact hres.elim
     | ok c' =>
-      obtain ⟨d', e1, hKb, hp', _, hlb⟩ := hres
+      obtain ⟨d', e1, hKb, hp', hd0', hlb⟩ := hres
       obtain ⟨hls, hlocb⟩ := hlb rfl
       rcases hrest hKb.emT.1 with hun | ⟨ds', hfl, hok, hpend, hpars⟩
       · exact Or.inl hun
@@ -382,7 +382,7 @@ theorem write_last (hcl : TextBlind w.ctl E) (hwf : WfChunkWith w.tbl fs = true)
       have hdisp : (S.write w c).1.disp = ds' := by
         show (S.write w c).1.parser.x.sink = ds'
         rw [hpars]; rfl
-      refine Or.inr ⟨pw', _, hcont _ _ hpw, Or.inr ⟨c', d', (inpW.drop c').take d', rfl, hok, ?_, ?_, by omega, ?_, ?_, ?_, ?_⟩⟩
+      refine Or.inr ⟨pw', _, hcont _ _ hpw, Or.inr ⟨c', d', (inpW.drop c').take d', rfl, hok, hd0', ?_, ?_, by omega, ?_, ?_, ?_, ?_⟩⟩
       · -- the rest of the whole input
         rw [hpend]
         have hS : (S.pending ++ c).drop c0 = inpW.drop (c' + d') := by
@@ -476,8 +476,7 @@ theorem end_sim (hcl : TextBlind w.ctl E) (hwf : WfChunkWith w.tbl fs = true) {X
     | error e' => exact hres.elim
     | ok c' =>
       obtain ⟨d', _, hKb, _, hd0, _⟩ := hres
-      have := hd0 rfl
-      subst this
+      subst hd0
       have hk0 := DK_zero.1 hKb
       rcases finish_sim F hclosed hcl hk0 with hp | ⟨h1, h2⟩
       · left
